@@ -63,14 +63,14 @@ def trees() -> List[Tuple[str, Program, Dict[str, List[Optional[str]]]]]:
         Cfg("E", "int", prompt="e"),
         Cfg("Z", "bool", prompt="z"),  # the LAST written option: when it goes y -> n the header / auto.conf lose their last line only
     ])
-    d1 = {"B": [None, "n", "y"], "BH": [None, "n"], "I": [None, "7"], "H": [None, "2A"], "S": [None, 'a"b\\c'], "Z": [None, "y"]}
+    d1 = {"B": [None, "n", "y"], "BH": [None, "n"], "I": [None, "7"], "H": [None, "2A"], "S": [None, 'a"b\\c', "n"], "Z": [None, "y"]}
     t2 = Program(children=[
         Cfg("B", "bool", prompt="b", defaults=[(L("y"), None)]),
         Menu(title="m", visible_if=[S("B")], children=[Cfg("BH", "bool", prompt="bh"), Cfg("I", "int", prompt="i", defaults=[(L("5"), None)]), Cfg("H", "hex", prompt="h", defaults=[(L("0x1f"), None)])]),
         Cfg("S", "string", prompt="s", depends=[S("B")], defaults=[(L('"dep"'), None)]),
         Choice(prompt="c", children=[Cfg("C1", "bool", prompt="c1"), Cfg("C2", "bool", prompt="c2")]),
     ])
-    d2 = {"B": [None, "n"], "BH": [None, "y"], "I": [None, "0"], "H": [None, "0X2a"], "S": [None, ""], "C2": [None, "y"]}
+    d2 = {"B": [None, "n"], "BH": [None, "y"], "I": [None, "0"], "H": [None, "0X2a"], "S": [None, "", "y"], "C2": [None, "y"]}
     t3 = Program(children=[
         Cfg("SRC", "bool", prompt="src", sets=[("I", L("9"), None)], selects=[("B", None)]),
         Cfg("B", "bool", prompt="b"),
@@ -232,6 +232,12 @@ def run_case(files, tree: str, rf: Tuple[int, ...], names: List[str], assign: Tu
         kg.write_json(k, paths["json"])
         autoconf = k._old_vals_contents()
         texts = {f: open(p).read() for f, p in paths.items()}
+        # the same configuration with the aliases switched off (kconfgen --dont-write-deprecated)
+        paths_n = {f: os.path.join(d, f"c07n.{f}") for f in ("config", "header", "cmake")}
+        kg.write_config(k, paths_n["config"], write_deprecated=False)
+        kg.write_header(k, paths_n["header"], write_deprecated=False)
+        kg.write_cmake(k, paths_n["cmake"], write_deprecated=False)
+        texts_n = {f: open(p).read() for f, p in paths_n.items()}
     except Exception as e:  # noqa: BLE001
         import traceback
 
@@ -248,6 +254,15 @@ def run_case(files, tree: str, rf: Tuple[int, ...], names: List[str], assign: Tu
 
     types = {s.name: c.TYPE_TO_STR[s.orig_type] for s in k.unique_defined_syms}
     values = {s.name: s.str_value for s in k.unique_defined_syms}
+    # ---- aliases switched off: no format mentions an old name, and the options themselves are written as before
+    old_names = {ALPHABET[i].split()[0][len("CONFIG_"):] for i in rf}
+    for fmt, parsed, with_aliases in (("config", parse_config(texts_n["config"]), cfg_main), ("header", parse_header(texts_n["header"]), hdr_main), ("cmake", parse_cmake(texts_n["cmake"]), cm_main)):
+        main_n, dep_n = parsed[0], parsed[1]
+        leaked = sorted((set(main_n) | set(dep_n) | set(parsed[2] if fmt == "cmake" else ())) & (old_names - set(types)))
+        if leaked or dep_n:
+            viol({"kind": "alias_written_although_switched_off", "format": fmt}, f"write_deprecated=False: {fmt} still carries {leaked or sorted(dep_n)}")
+        elif {n: v for n, v in main_n.items() if n in types} != {n: v for n, v in with_aliases.items() if n in types}:
+            viol({"kind": "options_differ_when_aliases_switched_off", "format": fmt}, f"write_deprecated=False changes the options written to {fmt}")
     # ---- main options
     for name, typ in types.items():
         in_cfg = name in cfg_main
@@ -379,11 +394,13 @@ def run_item(item) -> common.Result:
         assigns = list(itertools.product(*doms))
         prev = None
         for f in ("config", "header", "cmake", "json"):  # a new rename file starts from an empty output directory
-            try:
-                os.unlink(os.path.join(impl.wdir(), f"c07.{f}"))
-            except OSError:
-                pass
-        for assign in assigns + assigns[::-1][1:]:
+            for stem in ("c07", "c07n"):
+                try:
+                    os.unlink(os.path.join(impl.wdir(), f"{stem}.{f}"))
+                except OSError:
+                    pass
+        # (the reverse pass only with rename files of at most one line: what is left behind does not depend on the aliases)
+        for assign in assigns + (assigns[::-1][1:] if len(rf) <= 1 else []):
             run_case(item["files"], item["tree"], tuple(rf), names, assign, r, previous=prev)
             prev = assign
     r.sample = {"tree": item["tree"], "rename_file": [ALPHABET[i] for i in item["renames"][0]], "configurations": len(list(itertools.product(*doms)))}
